@@ -280,9 +280,20 @@ VCLAUSE(inverse_gamma, 20, 12000, 300000, "p within 1e-3 of 0 or 1, or a<1, or a
 		p = std::pow(10.0, s.uniform(-12, -3));
 	else
 		p = 1.0 - std::pow(10.0, s.uniform(-12, -3));
+	// inputs that failed once (needles no random search finds again: D22 needs a Halley iterate whose density is subnormal but not zero)
+	if(s.chance(0.01))
+	{
+		static const double hist[][2] = {{0.99999999999899969, 9997.5408762258539}, {1 - 1e-12 * (1 + 1e-3), 2824.13}, {0.999999999999, 5000.0}};
+		int h = (int) s.range(0, 2);
+		p	  = hist[h][0];
+		a	  = hist[h][1];
+		c.cls("historical_input");
+	}
 	if(!(p > 1e-12 && p < 1 - 1e-12))
 		throw Discard();
 	bool useQ = s.coin();
+	if(a == 9997.5408762258539)
+		useQ = false;	// the recorded failure is one of Inv_GammaP
 	if(pm != 0 || a < 1 || a > 100)
 		c.nt();
 	c.cls(a > 100 ? "a_gt_100" : (a < 1 ? "a_lt_1" : "a_1_to_100"));
